@@ -57,6 +57,10 @@ func (u vUniverse) cfgAddr(a int) string { // address as written in the configur
 		return "127.0.0.1"
 	case 13: // empty host
 		return fmt.Sprintf(":%d", u.ports[1])
+	case 14: // the wildcard address of legacy port 4, spelled as an IPv4 address
+		return fmt.Sprintf("0.0.0.0:%d", u.ports[3])
+	case 15: // ... and as an IPv6 address
+		return fmt.Sprintf("[::]:%d", u.ports[3])
 	}
 	return fmt.Sprintf("127.0.0.1:%d", u.ports[a-1])
 }
